@@ -61,6 +61,7 @@ class Conn(object):
     self._wire_busy = False
     self.max_recv = None
     self.marks = []                 # (s2c offset end, label) for frames the server wrote
+    self.delivered_log = []         # (s2c offset reached, instant): when the bytes became readable at the client
 
   # ---- server -> client
   def write(self, data, delay=0.0, chunks=None, label=None, close_after=None):
@@ -102,6 +103,14 @@ class Conn(object):
       self._wire_busy = True
       gevent.spawn(self._pump)
 
+  def arrival_of(self, label):
+    """Instant at which the last byte of the frame written under ``label`` became readable at the client
+    (None: not yet / never).  Pieces of earlier frames that trickle out delay the ones behind them."""
+    end = next((e_ for e_, l_ in self.marks if l_ == label), None)
+    if end is None:
+      return None
+    return next((t_ for off_, t_ in self.delivered_log if off_ >= end), None)
+
   def _pump(self):
     try:
       while self._wire:
@@ -124,6 +133,7 @@ class Conn(object):
           continue
         self.rxbuf += piece
         self.s2c_delivered += len(piece)
+        self.delivered_log.append((self.s2c_delivered, self.net.env.now))
         if self.sock is not None:
           self.sock._wake()
     finally:
